@@ -440,6 +440,17 @@ class Lib(Builtins):
             n = z3.Length(seq.z) if seq.elem is not None else I(0)
             c = z3.Int(fresh_name('count'))
             p2.add(z3.And(0 <= c, c <= n))
+            if seq.elem is not None and isinstance(seq, VList):
+                # two exact boundary facts of the count (sound, not complete): every element kept -> the length,
+                # no element kept -> 0.  Only for the counting form `sum(1 for ...)`
+                j = z3.Int(fresh_name('j'))
+                item = from_z3(ops.nth(seq.z, j, seq.elem), seq.elem)
+                keep, elt, extra = self._elem_eval(ex, g, comp, item, p2, node, 'sum')
+                one = ops.as_int(elt).conc() if isinstance(elt, (VInt, VBool)) else None
+                if one == 1:
+                    guard = z3.And(0 <= j, j < n, *extra)
+                    p2.add(z3.Implies(z3.ForAll([j], z3.Implies(guard, keep)), c == n))
+                    p2.add(z3.Implies(z3.ForAll([j], z3.Implies(guard, z3.Not(keep))), c == 0))
             p2.ghost['last_sum'] = (VInt(c), g, seq)
             return [Res(p2, VInt(c))]
         return ex.bind(rs, k)
